@@ -299,6 +299,29 @@ func (h *Hist) OpAuthorize() AuthResult {
 		return r
 	case 3: // bad or foreign signature
 		d := h.Devs[c.Int("dev", len(h.Devs))]
+		if c.Chance("tampered-copy", 1, 2) {
+			// A copy of a genuine authorization (they are public) with one
+			// field altered and the original signature kept.
+			a := d.Auth
+			switch c.Int("tamper-field", 6) {
+			case 0:
+				a.Capacity += 1000
+			case 1:
+				a.Latitude += 1
+			case 2:
+				a.Debt ^= 1
+			case 3:
+				a.PublicKey = Key("thief").Pub
+			case 4:
+				a.ShortID = h.NextID + 200 // the same signature presented for another id
+			case 5:
+				a.Expiration ^= 1 << 31
+			}
+			r := h.N.DoAuthorize(a)
+			h.W.Logf("authorize tampered copy of id=%d -> %s", d.ID, r)
+			h.W.Probe("hist.tampered-copy")
+			return r
+		}
 		a := d.Auth
 		a.ShortID = h.NextID + 100
 		a.PublicKey = Key("neverauthorized").Pub
